@@ -572,6 +572,7 @@ func classifyLoop(c *Ctx, f *ssa.Function, h *ssa.BasicBlock, loop map[*ssa.Basi
 	if len(exits) == 0 {
 		return "", "no exit edge at all"
 	}
+	sort.Slice(exits, func(i, j int) bool { return exits[i].from.Index < exits[j].from.Index })
 	var latches []*ssa.BasicBlock
 	for _, p := range h.Preds {
 		if loop[p] {
@@ -610,8 +611,6 @@ func classifyLoop(c *Ctx, f *ssa.Function, h *ssa.BasicBlock, loop map[*ssa.Basi
 		if cc, _ := condCall(e.iff); cc != nil && cc.Common().IsInvoke() && cc.Common().Method.Name() == "Err" && (e.from == h || everyIter(e.from)) {
 			if ok, why := ctxDeadline(c, cc.Common().Value, f, 0); ok {
 				return "context", "tests ctx.Err() of a deadline-bearing context on every iteration (" + why + ")"
-			} else {
-				return "", "tests ctx.Err() but the context carries no deadline: " + why
 			}
 		}
 	}
